@@ -8,7 +8,7 @@ from ..errors import AnalysisError
 from ..px import OK, PX, RAISE, Outcomes
 from ..pxv import Obj, Sym
 from ..te import Member, Record
-from .util import self_obj
+from .util import same_class, self_obj
 
 EZSP = "bellows.ezsp"
 NAMED = "bellows.types.named"
@@ -79,7 +79,7 @@ def run_write_config(ctx, v, user, current, set_ok=True, proto_v=None, reject=No
               ("self.setConfigurationValue", lambda px, t, a, k, fr: (es["SUCCESS"] if set_ok else (reject or es["ERR_FATAL"]),)),
               ("self.getValue", lambda px, t, a, k, fr: (es["SUCCESS"], b"\x00")),
               ("self.setValue", lambda px, t, a, k, fr: (es["SUCCESS"] if set_ok else (reject or es["ERR_FATAL"]),))]
-    px = PX(repo, models=models, inline=lambda g, aw: g.name == "from_ember_status", max_paths=200)
+    px = PX(repo, models=models, inline=same_class(), max_paths=200, max_depth=5)
     pc = repo.cls(f"bellows.ezsp.v{pv}", f"EZSPv{pv}")
 
     def setup():
